@@ -349,3 +349,13 @@ def tlc_cases(out, tag="CASE"):
                 # TLC escapes like JSON for the characters we use; anything else is an infrastructure problem
                 raise Inconclusive("cannot parse exported case: " + line[:300])
     return res
+
+
+def tlc_eval(module, timeout=300, env=None, spec_dirs=None, workdir=None):
+    """Evaluate a module that consists of ASSUMEs / constant expressions only (empty cfg)."""
+    wd = workdir or scratch("verif-tlc-")
+    d = os.path.join(wd, "extra")
+    os.makedirs(d, exist_ok=True)
+    open(os.path.join(d, os.path.basename(module).replace(".tla", "") + ".cfg"), "w").close()
+    return tlc(module, cfg=os.path.basename(module).replace(".tla", "") + ".cfg", spec_dirs=[d] + (spec_dirs or []),
+               workdir=wd, timeout=timeout, env=env, workers=1)
